@@ -98,7 +98,7 @@ def check(run, replay):
     run.extra["rule"] = ("decl: 1-30 ops over 1-6 addresses, fresh token per op, kinds V:F:E:S:R = 3:1:1:1:6; non-trivial = sequence with a reference before its declaration or a repeated address, distinct case. "
                          "end-to-end: one evaluation = one DeclRefExpr to a variable/parameter compared (token found at clang's position); non-trivial = distinct (program, offset).")
     vlib.ensure_repo_build()
-    ok = run.prove()
+    ok = run.prove(extra_targets=["theories/Clang/Run.vo"])
     if not ok:
         run.violation("proof:" + PID, "Properties_C35.vo does not build: " + str(run.proof_error())[:300],
                       {"broken": "proof", "detail": run.proof_error()}, found_input=False)
@@ -152,7 +152,11 @@ def check(run, replay):
     def one(pt):
         p, text = pt
         co = clang_ops(p)
-        rc, out, _ = vlib.sh([vlib.CPPCHECK, "--clang=" + CLANG, "--dump", "-q", p], timeout=180, cwd=WORK)
+        for attempt in range(6):
+            rc, out, _ = vlib.sh([vlib.CPPCHECK, "--clang=" + CLANG, "--dump", "-q", p], timeout=180, cwd=WORK)
+            if not (rc in (126, 127) or "installation is broken" in out or "Permission denied" in out or "Text file busy" in out):
+                break
+            time.sleep(10)   # the shared binary is being relinked by another check
         return co, rc, out, (p + ".dump") if os.path.exists(p + ".dump") else None
     with ThreadPoolExecutor(max_workers=6) as ex:
         results = list(ex.map(one, progs))
